@@ -7,11 +7,11 @@ ID="$1"; L="$2"; ROUND="${3:-}"; SRC="/tmp/wt/out${ROUND}_$ID/$L"; WT="/tmp/wt/c
 git -C /repo worktree add -q --detach "$WT" HEAD || exit 2
 cd "$WT"
 cp "$SRC/demo.py" demo_X.py
-timeout 600 /venv/bin/python demo_X.py > /tmp/confirm_demo_clean.out 2>&1; RC_CLEAN=$?
+timeout 600 /venv/bin/python demo_X.py > /tmp/confirm_demo_clean_$ID$L$ROUND.out 2>&1; RC_CLEAN=$?
 git apply "$SRC/patch.diff" || { echo "patch does not apply on HEAD"; cd /; git -C /repo worktree remove --force "$WT"; exit 2; }
-timeout 600 /venv/bin/python demo_X.py > /tmp/confirm_demo_mut.out 2>&1; RC_MUT=$?
-/venv/bin/python -m pytest -q -p no:cacheprovider --timeout=900 --continue-on-collection-errors -rA 2>&1 | grep -E "^PASSED" | sed 's/PASSED //; s#/#.#g; s/\.py::/::/' | sort > /tmp/confirm_passed.txt
-MISSING=$(sort /tmp/wt/stable_tests.txt | comm -23 - /tmp/confirm_passed.txt | wc -l)
+timeout 600 /venv/bin/python demo_X.py > /tmp/confirm_demo_mut_$ID$L$ROUND.out 2>&1; RC_MUT=$?
+/venv/bin/python -m pytest -q -p no:cacheprovider --timeout=900 --continue-on-collection-errors -rA 2>&1 | grep -E "^PASSED" | sed 's/PASSED //; s#/#.#g; s/\.py::/::/' | sort > /tmp/confirm_passed_$ID$L$ROUND.txt
+MISSING=$(sort /tmp/wt/stable_tests.txt | comm -23 - /tmp/confirm_passed_$ID$L$ROUND.txt | wc -l)
 cd /; git -C /repo worktree remove --force "$WT"
 echo "$ID-$L$ROUND: demo clean rc=$RC_CLEAN, demo mutated rc=$RC_MUT, stable tests missing=$MISSING"
 if [ "$RC_CLEAN" = 0 ] && [ "$RC_MUT" != 0 ] && [ "$MISSING" = 0 ]; then
@@ -32,5 +32,5 @@ json.dump(m, open(dst, 'w'), indent=1)
 PY
   echo "stored $D"
 else
-  echo "NOT CONFIRMED"; tail -3 /tmp/confirm_demo_clean.out; tail -3 /tmp/confirm_demo_mut.out
+  echo "NOT CONFIRMED"; tail -3 /tmp/confirm_demo_clean_$ID$L$ROUND.out; tail -3 /tmp/confirm_demo_mut_$ID$L$ROUND.out
 fi
